@@ -69,6 +69,9 @@ impl Prop for C18 {
     fn gen(&self, rng: &mut Rng, tier: Tier) -> Vec<String> {
         let mut v = Vec::new();
         // exhaustive: every value of every enumeration
+        // the enumerations this harness runs through vs. the tables the translator found in the source: a NEW
+        // typeenum! in routecore breaks this tie until the harness enumerates it too
+        v.push("tables".to_string());
         for (name, bits) in TABLES {
             for n in 0..(1u64 << bits) { v.push(format!("te {} {}", name, n)); }
         }
@@ -93,19 +96,22 @@ impl Prop for C18 {
             for s in 0..256 { v.push(format!("afisafi {} {}", a, s)); }
         }
         for _ in 0..2000 { v.push(format!("afisafi {} {}", rng.u16(), rng.u8())); }
-        match tier {
-            Tier::Quick => { v.push("afisafi-sweep 0 1023".into()); }
-            Tier::Thorough => {
-                // all 2^24 pairs, in 64 slices
-                for k in 0..64u32 { v.push(format!("afisafi-sweep {} {}", k * 1024, k * 1024 + 1023)); }
-            }
-        }
+        // all 2^24 (AFI, SAFI) pairs, in 64 slices of 1024 AFIs - in BOTH tiers (the property's quantifier;
+        // about 0.2 s per slice on the model side): round trip and as_bytes() against an independently
+        // computed big-endian AFI ++ SAFI for every pair, aggregated per slice
+        let _ = tier;
+        for k in 0..64u32 { v.push(format!("afisafi-sweep {} {}", k * 1024, k * 1024 + 1023)); }
         v
     }
 
     fn exec(&self, line: &str) -> String {
         let w: Vec<&str> = line.split(' ').collect();
         match w.as_slice() {
+            ["tables"] => {
+                let mut t: Vec<String> = TABLES.iter().map(|(n, b)| format!("{}/{}", n, b)).collect();
+                t.sort();
+                t.join(",")
+            }
             ["te", name, n] => {
                 let n: u64 = match n.parse() { Ok(n) => n, Err(_) => return "bad-op".into() };
                 match TABLES.iter().find(|(t, _)| t == name) {
